@@ -617,6 +617,8 @@ class EGraph:
         path = c.get("rpath") or c["path"]
         args = tuple(self.prov_operand(inst, a) for a in t["args"])
         if args and (_ERASE.search(c["path"]) or _ERASE.search(path)):
+            if getattr(self, "keep_clones", False) and re.search(r"clone::Clone>?::clone$", c["path"]):
+                return ("call", "clone", args, n)
             return args[0]
         if re.search(r"ops::Try::branch$", c["path"]):
             return ("branch", args[0])
@@ -626,6 +628,22 @@ class EGraph:
                 return ("err_of", a[1])
             return ("err_of", a)
         return ("call", c["path"] if not c.get("rpath") else path, args, n)
+
+    def with_clones(self):
+        """context manager: provenance that keeps Clone::clone calls as identifiable nodes (separate memo)"""
+        g = self
+
+        class _C:
+            def __enter__(self_):
+                self_.saved = g._prov_memo
+                g._prov_memo = {}
+                g.keep_clones = True
+                return g
+
+            def __exit__(self_, *a):
+                g._prov_memo = self_.saved
+                g.keep_clones = False
+        return _C()
 
     # ---- slots (memory locations for tags) ------------------------------------------
     def slot_of(self, inst, p):
